@@ -242,7 +242,14 @@ def process_config(job):
                 res['inconclusive'] += 1
                 res['notes'].append('path %d: no witness for preconditions+path (vacuity guard)' % res['paths'])
                 continue
-            full0 = ctx.full_env(env0)
+            try:
+                full0 = ctx.full_env(env0)
+            except ZeroDivisionError:
+                if os.environ.get('SYMX_DEBUG'):
+                    print('DEBUG env0', env0, 'pathcond', pathcond)
+                    for nm in ctx.derived_names[:ctx.next_derived]:
+                        print('DEBUG derived', nm, ctx.derived_def[nm])
+                raise
             tv2_vals = {}
             try:
                 path_subs = core.equalities_to_substitutions(ctx, pathcond)
